@@ -423,6 +423,44 @@ def do_free(ctx, inst, reps):
         shutil.rmtree(d, ignore_errors=True)
 
 
+def do_random_instances(ctx, n):
+    """thorough tier: a few random instances (programs drawn from the public API under the properties'
+    assumptions, tools/fuzz.py), different for every VERIF_SEED, through the same three uses"""
+    import fuzz
+    import zlib
+    base = ctx.seed * 100000 + (zlib.crc32(ctx.pid.encode()) % 9973) * 10
+    mine = [i for i in fuzz.INVARIANTS if i.startswith(ctx.pid + "_")] or \
+           [i for i in fuzz.INVARIANTS if i.startswith({"C15": "C04", "C19": "C01"}.get(ctx.pid, "C01") + "_")]
+    props = [p for p in fuzz.PROPERTIES if p.startswith(ctx.pid + "_")]
+    done = 0
+    k = 0
+    while done < n and k < 3 * n:
+        inst = fuzz.random_instance(base + k)
+        k += 1
+        d = tlc.workdir("rsz")
+        try:
+            mod = "MC_sz"
+            with open(os.path.join(d, mod + ".tla"), "w") as f:
+                f.write(instances.mc_module(inst, mod, extends="Props"))
+            r = tlc.run(d, mod, instances.mc_cfg(inst, "INIT Init\nNEXT Next\nCHECK_DEADLOCK FALSE\n"), workers=12,
+                        timeout=90, dump_trace=False)
+        finally:
+            shutil.rmtree(d, ignore_errors=True)
+        if not r.ok or r.distinct > 150000:
+            continue                      # too large for this budget: take the next one
+        done += 1
+        do_mc(ctx, inst, mine, props)
+        if ctx.violations:
+            return
+        do_gen(ctx, inst, 300)
+        if ctx.violations:
+            return
+        do_free(ctx, inst, 30)
+        if ctx.violations:
+            return
+    ctx.random_instances = done
+
+
 def write_evidence(ctx, extra=None):
     os.makedirs(EVID, exist_ok=True)
     cov = {
@@ -440,6 +478,7 @@ def write_evidence(ctx, extra=None):
         "replayed_behaviours": ctx.replayed, "free_traces_accepted": ctx.traces,
         "blocked_probes_confirmed": getattr(ctx, "probes", 0),
         "apalache_inductive_invariant": getattr(ctx, "apalache", None),
+        "random_instances": getattr(ctx, "random_instances", 0),
         "checker_cmd": "tlc (TLC2 2026.09.04) on spec/RsStore.tla + Props.tla / Gen.tla / Trace.tla, instances generated by tools/families.py",
         "known_findings_reported": [f["id"] for f, _ in ctx.known], "notes": ctx.notes[:20],
     }
@@ -529,6 +568,8 @@ def main():
     if "free" in only and not ctx.violations:
         for inst, reps in T["free"]:
             do_free(ctx, inst, reps)
+    if a.tier != "quick" and not ctx.violations and "fuzz" not in os.environ.get("VERIF_SKIP", ""):
+        do_random_instances(ctx, 6)
     return finish(ctx)
 
 
